@@ -645,7 +645,7 @@ func init() {
 	Register("C19", func(r *run.Run) {
 		r.Rule = "the goroutines of the parser (lexer, string decoder, parser) run under a cooperative scheduler whose scheduling points are the channel operations and goroutine starts (source rewritten at check time); every schedule within the preemption bound is explored for every input of bounded token-string enumerations and single-token mutations of the repository's descriptions; round trip Parse(Explain(L)) over the lookup generator"
 		r.Assume = []string{
-			"channel operations and goroutine starts are the only synchronisation in the package (checked by the rewriter: it fails on any sync/atomic/select use it does not model); unsynchronised shared accesses would be invisible to the cooperative scheduler and are the subject of the separate free-running -race pass (part C19.race)",
+			"channel operations (send, receive, range, close, select) and goroutine starts are the only synchronisation in the package (a use of sync or sync/atomic would not be modelled: the package imports neither, and the free-running race pass would see what the scheduler cannot); unsynchronised shared accesses would be invisible to the cooperative scheduler and are the subject of the separate free-running -race pass (part C19.race)",
 			"the result under the scheduler is compared with the free-running result of the same call",
 		}
 		fg, err := testcases.NewFontGen()
